@@ -116,6 +116,7 @@ type caseT struct {
 	Tag     string   `json:"tag"`     // sub-class used in the violation class id (cause rather than plugin)
 	MustFail bool    `json:"mustfail"` // the run must NOT end with exit 0 (a call can never be generated for)
 	MustOK  bool     `json:"mustok"`  // well-typed and inside the supported grammar: exit 0, parses, type-checks
+	Wants   []string `json:"wants"`   // with exit 0, derived.gen.go holds each of these texts (what the unchanged tool writes for the case)
 	Files   []string `json:"files"`
 }
 
@@ -1873,6 +1874,85 @@ func genXTest() {
 	x("in-package test files with calls only (control)", map[string]string{"p.go": proper, "in_test.go": inTest})
 }
 
+// ---------------------------------------------------------------- family: mapkeys
+// deepcopy / clone of a map whose KEY cannot be copied by assignment (X-C09-B): a key that is or holds an interface or a
+// channel is refused with a message; a key that holds pointers (array of pointers, named struct with a pointer) is copied
+// into a key of its own (pinned to what the tool does: an unnamed struct key holding a pointer is refused)
+
+func genMapKeys(prefixes map[string]string) {
+	type keyT struct {
+		decl, typ string // declaration (may be empty) and type text
+		refused   bool
+		names     []string
+	}
+	keys := []keyT{
+		{"", "interface{}", true, []string{"interface{}", "interface"}},
+		{"", "any", true, []string{"interface{}", "any", "interface"}},
+		{"", "error", true, []string{"error"}},
+		{"", "chan int", true, []string{"chan int"}},
+		{"", "<-chan string", true, []string{"<-chan string", "chan string"}},
+		{"", "[2]interface{}", true, []string{"interface{}"}},
+		{"", "[1]chan int", true, []string{"chan int"}},
+		{"type K interface{ M() }\n\n", "K", true, []string{"K", "interface"}},
+		{"type K chan int\n\n", "K", true, []string{"K", "chan int"}},
+		{"type K struct{ C chan int }\n\n", "K", true, []string{"K", "chan int"}},
+		{"type K struct {\n\tA int\n\tI interface{}\n}\n\n", "K", true, []string{"K", "interface{}"}},
+		{"type K struct{ In struct{ E error } }\n\n", "K", true, []string{"K", "error"}},
+		{"", "struct{ P *int }", true, []string{"struct{P *int}", "struct"}},
+		{"", "struct{ I interface{} }", true, []string{"struct{I interface{}}", "interface{}", "struct"}},
+		{"", "[1]*int", false, nil},
+		{"", "[2][1]*string", false, nil},
+		{"type K struct{ P *int }\n\n", "K", false, nil},
+		{"type K [1]*int\n\n", "K", false, nil},
+		{"type K struct{ A [1]*int }\n\n", "K", false, nil},
+		{"type K struct {\n\tN string\n\tIn struct{ P *float64 }\n}\n\n", "K", true, []string{"K", "struct{P *float64}"}}, // (the unnamed struct inside is refused everywhere)
+		{"type In struct{ P *float64 }\n\ntype K struct {\n\tN  string\n\tIn In\n}\n\n", "K", false, nil},
+		// controls: keys that an assignment copies
+		{"", "string", false, nil},
+		{"type K struct {\n\tA int\n\tB string\n}\n\n", "K", false, nil},
+	}
+	for _, pn := range []string{"deepcopy", "clone"} {
+		fn := prefixes[pn]
+		for _, k := range keys {
+			for _, pos := range []string{"top", "field", "element", "value-of-map", "behind-pointer"} {
+				var arg, extra string
+				switch pos {
+				case "top":
+					arg = "map[" + k.typ + "]int"
+				case "field":
+					extra = "type S struct {\n\tN int\n\tM map[" + k.typ + "][]string\n}\n\n"
+					arg = "*S"
+				case "element":
+					arg = "[]map[" + k.typ + "]int"
+				case "value-of-map":
+					arg = "map[string]map[" + k.typ + "]bool"
+				case "behind-pointer":
+					arg = "*map[" + k.typ + "]int"
+				}
+				var use string
+				if pn == "deepcopy" {
+					use = "func Use(dst, src " + arg + ") { " + fn + "(dst, src) }\n"
+				} else {
+					use = "func Use(src " + arg + ") " + arg + " { return " + fn + "(src) }\n"
+				}
+				c := caseT{Family: "mapkeys", Plugin: pn, What: fmt.Sprintf("map key %s%s @ %s", k.typ, map[bool]string{true: " (" + strings.TrimSpace(strings.ReplaceAll(k.decl, "\n", " ")) + ")", false: ""}[k.decl != ""], pos), Call: fn}
+				if k.refused {
+					c.MustFail, c.Unsupp, c.Tag = true, true, "map-key-not-copyable:"+pn
+					c.Names = append([]string{fn}, k.names...)
+				} else {
+					c.MustOK = true
+					c.Names = []string{fn, "K"}
+					if strings.Contains(k.decl+k.typ, "*") {
+						c.Tag = "map-key-holding-pointers:" + pn
+						c.Wants = []string{"_key " + k.typ + "\n"} // var dst_key <type>: a key of its own
+					}
+				}
+				add(c, map[string]string{"u.go": "package PKGDIR\n\n" + k.decl + extra + use})
+			}
+		}
+	}
+}
+
 // ---------------------------------------------------------------- family: nonascii
 
 func genNonASCII(prefixes map[string]string) {
@@ -2069,6 +2149,7 @@ func main() {
 	genLocalTypes(prefixes)
 	genMinMaxConst(prefixes)
 	genChanDirs(prefixes)
+	genMapKeys(prefixes)
 	genGenerics(prefixes)
 	genNamedTypes(prefixes)
 	genDiagnostics(prefixes)
